@@ -127,6 +127,7 @@ pub fn alpha() -> Alpha {
         inbound: vec![
             (0, 0, false, SubSel::Op(0)),
             (1, 1, false, SubSel::Op(0)),
+            (1, 1, true, SubSel::Op(0)),
             (2, 2, false, SubSel::Op(1)),
             (2, 2, true, SubSel::Both),
             (1, 3, false, SubSel::Absent),
@@ -145,6 +146,11 @@ pub fn alpha() -> Alpha {
 
 /// K inbound packets made available by one transport event (after a subscription with a live stream exists)
 fn burst_inbound(seed: u64, v: Variant, k: usize) -> (World, Obs) {
+    burst_inbound_dups(seed, v, k, false)
+}
+
+/// `dups`: every second QoS>0 message is re-delivered (same identifier, DUP=1) right behind the original
+fn burst_inbound_dups(seed: u64, v: Variant, k: usize, dups: bool) -> (World, Obs) {
     let mut w = world_for(seed, v);
     let s = w.start(0, Kind::Sub);
     w.settle_check();
@@ -155,6 +161,9 @@ fn burst_inbound(seed: u64, v: Variant, k: usize) -> (World, Obs) {
     w.sim.capture = Some(Vec::new());
     for j in 0..k {
         w.in_publish((j % 3) as u8, 1 + j as u16, false, &[sid], false);
+        if dups && j % 3 != 0 && (j / 3) % 2 == 0 {
+            w.in_publish((j % 3) as u8, 1 + j as u16, true, &[sid], false);
+        }
         if j % 3 == 2 {
             w.in_pubrel(1 + j as u16);
         }
@@ -186,17 +195,21 @@ fn burst_requests(seed: u64, v: Variant, k: usize) -> (World, Obs) {
 
 fn bursts(rep: &mut Rep) {
     let sizes: Vec<usize> = if rep.quick() { vec![1, 7, 15, 16, 17, 31, 32, 33, 64, 100] } else { (1..=70).chain([100, 127, 128, 129, 255, 256, 257, 500, 1000]).collect() };
-    rep.note(&format!("bursts: {:?} inbound packets made available by one transport event, and as many requests already queued when the context runs, each under wake-only vs sweep vs spurious-poll executors and 3 reader plans", sizes));
+    rep.note(&format!("bursts: {:?} inbound packets made available by one transport event (without and with DUP=1 re-deliveries right behind the original), and as many requests already queued when the context runs, each under wake-only vs sweep vs spurious-poll executors and 3 reader plans", sizes));
     let mut idx = 80_000_000u64;
     for &k in &sizes {
-        for kind in 0..2u8 {
+        for kind in 0..3u8 {
             let id = format!("burst:{kind}:{k}");
             idx += 1;
             if !rep.take(idx, &id) {
                 continue;
             }
             let base = Variant { discipline: 0, reader: 0, writer: 0, order: 0 };
-            let (mut w0, ref_obs) = if kind == 0 { burst_inbound(rep.seed, base, k) } else { burst_requests(rep.seed, base, k) };
+            let (mut w0, ref_obs) = match kind {
+                0 => burst_inbound(rep.seed, base, k),
+                1 => burst_requests(rep.seed, base, k),
+                _ => burst_inbound_dups(rep.seed, base, k, true),
+            };
             rep.add("evaluations", 1);
             rep.add("burst_cases", 1);
             rep.distinct(&("burst", kind, k, 0u8));
@@ -212,7 +225,11 @@ fn bursts(rep: &mut Rep) {
             .iter()
             .enumerate()
             {
-                let (mut w, obs) = if kind == 0 { burst_inbound(rep.seed, *v, k) } else { burst_requests(rep.seed, *v, k) };
+                let (mut w, obs) = match kind {
+                    0 => burst_inbound(rep.seed, *v, k),
+                    1 => burst_requests(rep.seed, *v, k),
+                    _ => burst_inbound_dups(rep.seed, *v, k, true),
+                };
                 rep.add("evaluations", 1);
                 rep.add("variant_runs", 1);
                 rep.distinct(&("burst", kind, k, vi as u8 + 1));
@@ -222,7 +239,7 @@ fn bursts(rep: &mut Rep) {
                         1 => "sweep-after-every-event",
                         _ => "spurious-polls",
                     };
-                    w.viol(&["C16"], format!("C16/observation-differs/{which}/{field}"), format!("burst of {k} ({}), variant {v:?} vs wake-only reference: {d}", if kind == 0 { "inbound packets in one read" } else { "queued requests" }));
+                    w.viol(&["C16"], format!("C16/observation-differs/{which}/{field}"), format!("burst of {k} ({}), variant {v:?} vs wake-only reference: {d}", match kind { 0 => "inbound packets in one read", 1 => "queued requests", _ => "inbound packets with re-deliveries in one read" }));
                 } else {
                     rep.add("identical_observations", 1);
                 }
